@@ -96,6 +96,106 @@ def document(rng, feats=ALL_FEATS, heights=PAGE_HEIGHTS):
     return html, root, H, counter[0]
 
 
+CSSNAME = {'mt': 'margin-top', 'mb': 'margin-bottom', 'pt': 'padding-top', 'pb': 'padding-bottom',
+           'bf': 'break-before', 'ba': 'break-after', 'bi': 'break-inside'}
+
+
+def padfit_document(rng):
+    """Documents of the model grammar aimed at the SECOND layout of a child in _in_flow_layout: a block whose content
+    fits in the room left on the page while its bottom padding / border does not, after earlier siblings on the
+    page (in body, or in a container that starts the page), with break-inside: avoid on it or orphans / widows on its
+    paragraph; all heights are multiples of 10 plus small decorations so that the boundary is met often."""
+    H = rng.choice([40, 50, 60, 70, 80, 100])
+    counter = [0]
+
+    def node(st, content, o, w, set_o=None, set_w=None):
+        css = []
+        for k, v in st.items():
+            if k in CSSNAME:
+                css.append('%s:%s' % (CSSNAME[k], ('%dpx' % v) if isinstance(v, int) else v))
+            elif k == 'bt':
+                css.append('border-top:%dpx solid' % v)
+            elif k == 'bb':
+                css.append('border-bottom:%dpx solid' % v)
+            elif k == 'clone':
+                css.append('box-decoration-break:clone')
+        if set_o:
+            o = set_o; css.append('orphans:%d' % o)
+        if set_w:
+            w = set_w; css.append('widows:%d' % w)
+        st = dict(st); st['orphans'], st['widows'] = o, w
+        if isinstance(content, int):
+            ws = list(range(counter[0], counter[0] + content))
+            counter[0] += content
+            return ('<p style="%s">%s</p>' % (';'.join(css), ' '.join(word(i) for i in ws)), ('blk', st, [('lines', ws)], False)), o, w
+        return None, o, w
+
+    def para(n, st, o, w, set_o=None, set_w=None):
+        (h, b), _, _ = node(st, n, o, w, set_o, set_w)
+        return h, b
+
+    def decorated(o, w):
+        """a div with bottom decoration around one or two paragraphs"""
+        st = {}
+        r = rng.random()
+        if r < 0.7:
+            st['pb'] = rng.choice([3, 10, 20, 30])
+        if r > 0.5:
+            st['bb'] = rng.choice([1, 4])
+        if rng.random() < 0.2:
+            st['pt'] = rng.choice([3, 10])
+        if rng.random() < 0.45:
+            st['bi'] = rng.choice(['avoid', 'avoid-page'])
+        if rng.random() < 0.1:
+            st['clone'] = True
+        css = []
+        for k, v in st.items():
+            if k in CSSNAME:
+                css.append('%s:%s' % (CSSNAME[k], ('%dpx' % v) if isinstance(v, int) else v))
+            elif k == 'bb':
+                css.append('border-bottom:%dpx solid' % v)
+            elif k == 'clone':
+                css.append('box-decoration-break:clone')
+        so = rng.choice([None, None, 2, 3, 4]); sw = rng.choice([None, None, 2, 3])
+        if so:
+            o = so; css.append('orphans:%d' % o)
+        if sw:
+            w = sw; css.append('widows:%d' % w)
+        st['orphans'], st['widows'] = o, w
+        kids_h, kids_b = '', []
+        for _ in range(rng.choice([1, 1, 2])):
+            pst = {}
+            if rng.random() < 0.2:
+                pst['bi'] = 'avoid'
+            if rng.random() < 0.15:
+                pst['pb'] = rng.choice([3, 10])
+            h, b = para(rng.choice([1, 2, 3, 4, 5]), pst, o, w)
+            kids_h += h; kids_b.append(b)
+        return '<div style="%s">%s</div>' % (';'.join(css), kids_h), ('blk', st, kids_b, False)
+
+    def sequence(o, w, depth):
+        html, kids = '', []
+        for _ in range(rng.choice([2, 3, 4, 5])):
+            r = rng.random()
+            if r < 0.45:
+                h, b = para(rng.choice([1, 2, 3, 4, 6]), {'mb': rng.choice([0, 0, 5, 10])} if rng.random() < 0.3 else {}, o, w)
+            elif r < 0.9 or depth >= 1:
+                h, b = decorated(o, w)
+            else:
+                ih, ik = sequence(o, w, depth + 1)
+                st = {'orphans': o, 'widows': w}
+                h, b = '<div style="">%s</div>' % ih, ('blk', st, ik, False)
+            html += h; kids.append(b)
+        return html, kids
+
+    body, kids = sequence(1, 1, 0)
+    html = ('<style>@page{size:100px %dpx; margin:0} body{margin:0;font-family:weasyprint;font-size:10px;'
+            'line-height:10px} p{margin:0}</style>' % H) + body
+    d = {'orphans': 1, 'widows': 1}
+    root = ('blk', dict(d), [('blk', dict(d), kids, False)], True)
+    return html, root, H, counter[0]
+
+
 def z(v):
     return '(%d)' % v
 
